@@ -262,8 +262,13 @@ def random_rois(ctx: Ctx, n: int) -> None:
     for idx in ctx.indices("roi_random", n):
         r = ctx.rng("roi_random", idx)
         a = (r.randint(0, 4000), r.randint(0, 3000), r.randint(1, 2000), r.randint(1, 2000))
+        lo = 0
+        if r.random() < 0.3:
+            # boxes sticking out past the left / top image border (negative offsets) are boxes like any other
+            lo = -600
+            a = (r.randint(-500, 200), r.randint(-500, 200), a[2], a[3])
         if r.random() < 0.6:
-            b = (max(0, a[0] + r.randint(-300, 300)), max(0, a[1] + r.randint(-300, 300)), max(1, a[2] + r.randint(-200, 200)), max(1, a[3] + r.randint(-200, 200)))
+            b = (max(lo, a[0] + r.randint(-300, 300)), max(lo, a[1] + r.randint(-300, 300)), max(1, a[2] + r.randint(-200, 200)), max(1, a[3] + r.randint(-200, 200)))
         else:
             b = (r.randint(0, 4000), r.randint(0, 3000), r.randint(1, 2000), r.randint(1, 2000))
         ctx.begin_case("roi_random", idx, a=a, b=b)
@@ -271,7 +276,7 @@ def random_rois(ctx: Ctx, n: int) -> None:
         v, vs = values(oa, ob), values(ob, oa)
         ctx.check(v["cd"] == vs["cd"] and abs(v["iou2d"] - vs["iou2d"]) <= 1e-12, "C06/score_not_symmetric", dict(a=a, b=b, v=v, vs=vs), "MatchingMethod")
         # common translation of both ROIs
-        t = (r.randint(0, 500), r.randint(0, 500))
+        t = (r.randint(0, 500), r.randint(0, 500)) if lo == 0 else (r.randint(-500, 500), r.randint(-500, 500))
         oa2, ob2 = O.obj2d((a[0] + t[0], a[1] + t[1], a[2], a[3])), O.obj2d((b[0] + t[0], b[1] + t[1], b[2], b[3]))
         v2 = values(oa2, ob2)
         ctx.check(close(v["cd"], v2["cd"], 1e-9, 1e-12) and abs(v["iou2d"] - v2["iou2d"]) <= 1e-12, "C06/score_changes_under_common_translation", dict(a=a, b=b, t=t, v=v, v2=v2), "MatchingMethod")
